@@ -54,16 +54,37 @@ pub mod dic_ops;
 pub mod kana_ops;
 pub mod trie_ops;
 pub mod kkc_ops;
+pub mod builder_ops;
+pub mod skk_ops;
+
+// the line parsers / converters of the SKK import tools are modules of bin crates: compile them from the
+// repository's sources
+#[allow(dead_code, unused_imports)]
+#[path = "/repo/skk-noun-converter/src/noun_converter.rs"]
+pub mod noun_converter;
+#[allow(dead_code, unused_imports)]
+#[path = "/repo/skk-jinmei-converter/src/jinmei_converter.rs"]
+pub mod jinmei_converter;
+#[allow(dead_code, unused_imports)]
+#[path = "/repo/skk-tankan-converter/src/tankan_grammer.rs"]
+pub mod tankan_grammer;
+#[allow(dead_code, unused_imports)]
+#[path = "/repo/skk-notes-converter/src/note_grammer.rs"]
+pub mod note_grammer;
+#[allow(dead_code, unused_imports)]
+#[path = "/repo/skk-notes-converter/src/converter.rs"]
+pub mod converter;
 
 /// Mutable state of the implementation driver.
 pub struct State {
     pub trie: trie_ops::TrieState,
     pub kkc: kkc_ops::KkcState,
+    pub builder: builder_ops::BuilderState,
 }
 
 impl State {
     pub fn new() -> Self {
-        State { trie: trie_ops::TrieState::new(), kkc: kkc_ops::KkcState::new() }
+        State { trie: trie_ops::TrieState::new(), kkc: kkc_ops::KkcState::new(), builder: builder_ops::BuilderState::new() }
     }
 }
 
@@ -72,8 +93,11 @@ pub fn handle(st: &mut State, op: &str, arg: &str) -> Option<String> {
     if let Some(r) = trie_ops::handle(&mut st.trie, op, arg) {
         return Some(r);
     }
+    if let Some(r) = builder_ops::handle(&mut st.builder, &mut st.kkc, op, arg) {
+        return Some(r);
+    }
     if let Some(r) = kkc_ops::handle(&mut st.kkc, op, arg) {
         return Some(r);
     }
-    dic_ops::handle(op, arg).or_else(|| kana_ops::handle(op, arg))
+    dic_ops::handle(op, arg).or_else(|| kana_ops::handle(op, arg)).or_else(|| skk_ops::handle(op, arg))
 }
